@@ -110,9 +110,12 @@ def _build(d):
         # other constants in column E
         for r in range(1, d.int(1, 7)):
             k = d.choice(['s', 'str', 'inlineStr', 'b', 'e', 'date', 'n',
-                          's'])
+                          's', 'empty'])
             a = 'E%d' % r
-            if k in ('s', 'str', 'inlineStr'):
+            if k == 'empty':
+                # a stored cell WITHOUT a value (<c r=".." s="1"/>)
+                cells[a] = {'kind': 'empty'}
+            elif k in ('s', 'str', 'inlineStr'):
                 cells[a] = {'kind': k, 'v': d.choice(TEXTS)}
             elif k == 'b':
                 cells[a] = {'kind': 'b', 'v': bool(d.pick(2))}
@@ -230,6 +233,8 @@ def budget(tier):
 
 def const_tag(c):
     k = c['kind']
+    if k == 'empty':
+        return ('Z',)
     if k == 'n':
         return ('N', float(c['v']))
     if k in ('s', 'str', 'inlineStr'):
@@ -390,6 +395,8 @@ def judge(case):
             d[a] = c['v']
         elif k == 'e':
             d[a] = '=' + c['v']
+        elif k == 'empty':
+            continue
         else:
             d[a] = 0
             presets[a] = (c['v'] if k != 'date' else datetime.datetime(
